@@ -8,6 +8,7 @@ pub mod c13;
 pub mod c04;
 pub mod c03;
 pub mod c12;
+pub mod c06;
 pub mod c18;
 
 pub fn lookup(id: &str) -> Option<&'static dyn Prop> {
@@ -21,6 +22,7 @@ pub fn lookup(id: &str) -> Option<&'static dyn Prop> {
         "C04" => Some(&c04::C04),
         "C03" => Some(&c03::C03),
         "C12" => Some(&c12::C12),
+        "C06" => Some(&c06::C06),
         "C18" => Some(&c18::C18),
         _ => None,
     }
